@@ -337,10 +337,10 @@ Proof.
     pose proof (pop_reference_spec s Hok Hl (or_introl E1)) as H.
     destruct (pop_reference s) as [r s1|t wet s1|p|]; cbn in *; auto.
     destruct H as (A & (B & C & D) & F). split; [exact A|]. split; [|exact F].
-    inversion C as [|x l Hx Hl']; subst. constructor; [exact Hx|constructor]. }
+    inversion C as [|x l Hx Hl']; subst. constructor; [exact Hx|constructor; [exact Hx|constructor]]. }
   destruct (is_literal (next_type s)) eqn:E2.
   { destruct (pop_token_spec s Hok Hl) as (t & s1 & E & Hst & Hin & Hty & Hlen & Hte).
-    rewrite E. cbn. split; [exact Hst|]. split; [|exact Hlen]. constructor; [exact Hin|constructor]. }
+    rewrite E. cbn. split; [exact Hst|]. split; [|exact Hlen]. constructor; [exact Hin|constructor; [exact Hin|constructor]]. }
   destruct (tt_eqb (next_type s) LBRACK) eqn:E3; cycle 1.
   { destruct (pop_token_spec s Hok Hl) as (t & s1 & E & Hst & Hin & Hty & Hlen & Hte).
     rewrite E. cbn. split; assumption. }
@@ -370,20 +370,27 @@ Proof. intros. apply pop_value_spec; auto. Qed.
 Lemma peek_type_0 s : peek_type 0 s = next_type s.
 Proof. unfold peek_type, next_type. destruct (wrest s); reflexivity. Qed.
 
+Lemma toks_in_weaken lo hi hi' (l : list token) : pos_le hi hi' -> Forall (tok_in lo hi) l -> Forall (tok_in lo hi') l.
+Proof. intros H. apply Forall_impl. intros t. apply range_weaken; [apply pos_le_refl|exact H]. Qed.
+
 Lemma pop_description_loop_spec : forall fuel acc s lo,
   wst_ok s -> wlive s -> pos_le lo (hw s) ->
   (acc <> [] -> pos_le lo (ref_start acc) /\ valid_pos inp (ref_start acc) /\ pos_le (ref_start acc) (hw s)) ->
+  Forall (tok_in lo (hw s)) acc ->
   (length (wrest s) < fuel)%nat ->
   match pop_description_loop fuel acc s with
-  | WOk d s' => wstep s s' /\ range_ok lo (hw s') (dsstart d) (dsend d) /\
+  | WOk d s' => wstep s s' /\ range_ok lo (hw s') (dsstart d) (dsend d) /\ Forall (tok_in lo (hw s')) (dtoks d) /\
                 (wrest s <> [] -> (length (wrest s') < length (wrest s))%nat)
   | _ => False
   end.
 Proof.
-  induction fuel as [|f IH]; intros acc s lo Hok Hl Hlo Hst Hf; [lia|].
+  induction fuel as [|f IH]; intros acc s lo Hok Hl Hlo Hst Hacc Hf; [lia|].
   cbn [pop_description_loop].
   destruct (pop_token_spec s Hok Hl) as (t & s1 & E & Hs1 & Hin & Hty & Hlen & Hte).
   rewrite E. cbn [wbind].
+  assert (Hacc1 : Forall (tok_in lo (hw s1)) (acc ++ [t])).
+  { apply Forall_app. split; [eapply toks_in_weaken; [apply Hs1|exact Hacc]|].
+    constructor; [|constructor]. eapply range_weaken; [exact Hlo|apply pos_le_refl|exact Hin]. }
   assert (Hst' : pos_le lo (ref_start (acc ++ [t])) /\ valid_pos inp (ref_start (acc ++ [t])) /\
                  pos_le (ref_start (acc ++ [t])) (hw s1)).
   { rewrite ref_start_snoc. destruct acc as [|a0 acc0].
@@ -397,43 +404,49 @@ Proof.
     assert (Hr1 : wrest s1 <> []). { apply next_type_not_eof; [apply Hs1|]. rewrite Ep0. discriminate. }
     destruct (pop_token_spec s1 (ws_ok _ _ Hs1) (wstep_live _ _ Hs1)) as (t2 & s2 & E2 & Hs2 & Hin2 & Hty2 & Hlen2 & Hte2).
     rewrite E2. cbn [wbind]. specialize (Hlen2 Hr1).
-    specialize (IH (acc ++ [t]) s2 lo (ws_ok _ _ Hs2) (wstep_live _ _ Hs2)).
     assert (H12 : wstep s s2) by (eapply wstep_trans; eauto).
-    destruct (pop_description_loop f (acc ++ [t]) s2) as [d s'|t' wetq s'|p|]; try (apply IH; auto).
-    + destruct IH as (A & B & C).
-      * eapply pos_le_trans; [exact Hlo|apply H12].
-      * intros _. destruct Hst' as (X & Y & Z). repeat split; auto. eapply pos_le_trans; [exact Z|apply Hs2].
-      * pose proof (ws_len _ _ Hs1). lia.
-      * split; [eapply wstep_trans; eauto|]. split; [exact B|].
-        intros _. pose proof (ws_len _ _ Hs1). pose proof (ws_len _ _ A). lia.
-    + eapply pos_le_trans; [exact Hlo|apply H12].
-    + intros _. destruct Hst' as (X & Y & Z). repeat split; auto. eapply pos_le_trans; [exact Z|apply Hs2].
-    + pose proof (ws_len _ _ Hs1). lia.
-    + eapply pos_le_trans; [exact Hlo|apply H12].
-    + intros _. destruct Hst' as (X & Y & Z). repeat split; auto. eapply pos_le_trans; [exact Z|apply Hs2].
-    + pose proof (ws_len _ _ Hs1). lia.
-    + eapply pos_le_trans; [exact Hlo|apply H12].
-    + intros _. destruct Hst' as (X & Y & Z). repeat split; auto. eapply pos_le_trans; [exact Z|apply Hs2].
-    + pose proof (ws_len _ _ Hs1). lia.
-  - split; [exact Hs1|]. split; [|exact Hlen]. cbn. rewrite ref_end_snoc, Hte.
+    assert (P1 : pos_le lo (hw s2)) by (eapply pos_le_trans; [exact Hlo|apply H12]).
+    assert (P2 : acc ++ [t] <> [] -> pos_le lo (ref_start (acc ++ [t])) /\ valid_pos inp (ref_start (acc ++ [t])) /\
+                                      pos_le (ref_start (acc ++ [t])) (hw s2)).
+    { intros _. destruct Hst' as (X & Y & Z). repeat split; auto. eapply pos_le_trans; [exact Z|apply Hs2]. }
+    assert (P3 : Forall (tok_in lo (hw s2)) (acc ++ [t])) by (eapply toks_in_weaken; [apply Hs2|exact Hacc1]).
+    assert (P4 : (length (wrest s2) < f)%nat) by (pose proof (ws_len _ _ Hs1); lia).
+    specialize (IH (acc ++ [t]) s2 lo (ws_ok _ _ Hs2) (wstep_live _ _ Hs2) P1 P2 P3 P4).
+    destruct (pop_description_loop f (acc ++ [t]) s2) as [d s'|t' wetq s'|p|]; try exact IH.
+    destruct IH as (A & B & Bt & C).
+    split; [eapply wstep_trans; eauto|]. split; [exact B|]. split; [exact Bt|].
+    intros _. pose proof (ws_len _ _ Hs1). pose proof (ws_len _ _ A). lia.
+  - split; [exact Hs1|]. split; [|split; [exact Hacc1|exact Hlen]]. cbn. rewrite ref_end_snoc, Hte.
     destruct Hst' as (X & Y & Z). destruct (ws_ok _ _ Hs1) as (V & _).
     repeat split; auto using pos_le_refl.
 Qed.
 
-Lemma pop_description_spec s : wst_ok s -> wlive s ->
-  wres_ok s (fun d s' => range_ok (hw s) (hw s') (dsstart d) (dsend d)) (pop_description s).
+Lemma pop_description_spec s k : wst_ok s -> wlive s ->
+  wres_ok s (fun d s' => nodes_ok (hw s) (hw s') (desc_nodes k d)) (pop_description s).
 Proof.
   intros Hok Hl. unfold pop_description.
   pose proof (pop_description_loop_spec (S (length (wrest s))) [] s (hw s) Hok Hl (pos_le_refl _)) as H.
   assert (Hnil : @nil token <> [] -> pos_le (hw s) (ref_start []) /\ valid_pos inp (ref_start []) /\ pos_le (ref_start []) (hw s)).
   { intros Hne. exfalso. apply Hne. reflexivity. }
-  specialize (H Hnil ltac:(lia)).
-  destruct (pop_description_loop (S (length (wrest s))) [] s) as [d s'|t wet s'|p|]; cbn; auto; contradiction.
+  specialize (H Hnil (Forall_nil _) ltac:(lia)).
+  destruct (pop_description_loop (S (length (wrest s))) [] s) as [d s'|t wet s'|p|]; cbn; auto; try contradiction.
+  destruct H as (A & B & Bt & C). split; [exact A|]. split; [|exact C].
+  unfold desc_nodes. constructor; [exact B|]. apply Forall_forall. intros n Hn. apply in_map_iff in Hn.
+  destruct Hn as (t & <- & Ht). rewrite Forall_forall in Bt. apply (Bt t Ht).
 Qed.
 
 (* ---- popTag ------------------------------------------------------------------------ *)
 Definition tag_res (s : wstate) (r : wres tag) : Prop :=
   wres_ok s (fun t s' => nodes_ok (hw s) (hw s') (tag_nodes t)) r.
+
+(* a tag without its mark token *)
+Definition tag_core (t : tag) : list pnode :=
+  (8%N, tgstart t, tgend t) :: match tbody t with TagRef r => ref_nodes r | TagVal v => value_nodes v end.
+Lemma tag_nodes_of_core lo hi t : nodes_ok lo hi (tag_core t) -> nodes_ok lo hi (mark_nodes t) -> nodes_ok lo hi (tag_nodes t).
+Proof.
+  unfold tag_core, tag_nodes. intros H Hm. inversion H as [|x l Hx Hl']; subst.
+  constructor; [exact Hx|]. apply Forall_app. split; assumption.
+Qed.
 
 Lemma after_mark_spec s0 s mk mt : wstep s0 s \/ (s0 = s /\ wst_ok s /\ wlive s) ->
   let r := match next_type s with
@@ -444,7 +457,7 @@ Lemma after_mark_spec s0 s mk mt : wstep s0 s \/ (s0 = s /\ wst_ok s /\ wlive s)
     | _ => wbind (pop_token s) (fun t s1 => WErr t (Expected exp_tag) s1)
     end in
   match r with
-  | WOk t s' => wstep s s' /\ nodes_ok (hw s) (hw s') (tag_nodes t) /\
+  | WOk t s' => wstep s s' /\ nodes_ok (hw s) (hw s') (tag_core t) /\ tmark_tok t = mt /\
                 (wrest s <> [] -> (length (wrest s') < length (wrest s))%nat)
   | WErr t _ s' => wstep s s' /\ tok_in (hw s) (hw s') t
   | _ => False
@@ -456,17 +469,17 @@ Proof.
   cbv zeta.
   assert (Href : next_type s = IDENT \/ next_type s = BOOL ->
     match wbind (pop_reference s) (fun r s1 => WOk (mkTag mk mt (TagRef r) (ref_start r) (ref_end r)) s1) with
-    | WOk t s' => wstep s s' /\ nodes_ok (hw s) (hw s') (tag_nodes t) /\
+    | WOk t s' => wstep s s' /\ nodes_ok (hw s) (hw s') (tag_core t) /\ tmark_tok t = mt /\
                   (wrest s <> [] -> (length (wrest s') < length (wrest s))%nat)
     | WErr t _ s' => wstep s s' /\ tok_in (hw s) (hw s') t
     | _ => False
     end).
   { intros Hn. pose proof (pop_reference_spec s Hok Hl Hn) as H.
     destruct (pop_reference s) as [r s1|t wet s1|p|]; cbn in *; auto.
-    destruct H as (A & (B & C & D) & F). split; [exact A|]. split; [|exact F].
-    unfold tag_nodes. cbn. inversion C as [|x l Hx Hl']; subst. constructor; [exact Hx|exact C]. }
+    destruct H as (A & (B & C & D) & F). split; [exact A|]. split; [|split; [reflexivity|exact F]].
+    unfold tag_core. cbn. inversion C as [|x l Hx Hl']; subst. constructor; [exact Hx|exact C]. }
   assert (Hdef : match wbind (pop_token s) (fun t s1 => WErr (A:=tag) t (Expected exp_tag) s1) with
-    | WOk t s' => wstep s s' /\ nodes_ok (hw s) (hw s') (tag_nodes t) /\
+    | WOk t s' => wstep s s' /\ nodes_ok (hw s) (hw s') (tag_core t) /\ tmark_tok t = mt /\
                   (wrest s <> [] -> (length (wrest s') < length (wrest s))%nat)
     | WErr t _ s' => wstep s s' /\ tok_in (hw s) (hw s') t
     | _ => False
@@ -476,8 +489,21 @@ Proof.
   destruct (next_type s) eqn:En; try exact Hdef; try (apply Href; auto).
   pose proof (pop_value_top_spec s Hok Hl) as H. unfold value_res in H.
   destruct (pop_value_top s) as [v s1|t wet s1|p|]; cbn in *; auto.
-  destruct H as (A & B & C). split; [exact A|]. split; [|exact C].
-  unfold tag_nodes. cbn. constructor; [|exact B]. apply value_nodes_range, B.
+  destruct H as (A & B & C). split; [exact A|]. split; [|split; [reflexivity|exact C]].
+  unfold tag_core. cbn. constructor; [|exact B]. apply value_nodes_range, B.
+Qed.
+
+Lemma no_mark_lift s (r : wres tag) :
+  match r with
+  | WOk t s' => wstep s s' /\ nodes_ok (hw s) (hw s') (tag_core t) /\ tmark_tok t = None /\
+                (wrest s <> [] -> (length (wrest s') < length (wrest s))%nat)
+  | WErr t _ s' => wstep s s' /\ tok_in (hw s) (hw s') t
+  | _ => False
+  end -> wres_ok s (fun t s' => nodes_ok (hw s) (hw s') (tag_nodes t)) r.
+Proof.
+  destruct r as [tg s2|t2 wet2 s2|p|]; cbn; auto.
+  intros (A & B & Hmt & C). split; [exact A|]. split; [|exact C].
+  apply tag_nodes_of_core; [exact B|]. unfold mark_nodes. rewrite Hmt. constructor.
 Qed.
 
 Lemma pop_tag_spec s : wst_ok s -> wlive s -> tag_res s (pop_tag s).
@@ -497,14 +523,17 @@ Proof.
     rewrite E. cbn [wbind].
     pose proof (after_mark_spec s s1 mk (Some t) (or_introl Hst)) as H. cbv zeta in H.
     match goal with |- wres_ok _ _ ?r => destruct r as [tg s2|t2 wet2 s2|p|] end; cbn in *; auto.
-    - destruct H as (A & B & C). split; [eapply wstep_trans; eauto|]. split.
-      + eapply nodes_weaken; [apply Hst|apply pos_le_refl|exact B].
+    - destruct H as (A & B & Hmt & C). split; [eapply wstep_trans; eauto|]. split.
+      + apply tag_nodes_of_core.
+        * eapply nodes_weaken; [apply Hst|apply pos_le_refl|exact B].
+        * unfold mark_nodes. rewrite Hmt. constructor; [|constructor].
+          eapply range_weaken; [apply pos_le_refl|apply A|exact Hin].
       + intros Hr. specialize (Hlen Hr). pose proof (ws_len _ _ A). lia.
     - destruct H as (A & B). split; [eapply wstep_trans; eauto|].
       eapply range_weaken; [apply Hst|apply pos_le_refl|exact B]. }
   destruct (next_type s) eqn:En; try apply Hmark;
     pose proof (after_mark_spec s s MarkNone None (or_intror (conj eq_refl (conj Hok Hl)))) as H; cbv zeta in H;
-    rewrite En in H; exact H.
+    rewrite En in H; apply no_mark_lift; exact H.
 Qed.
 
 (* ---- endStatement ------------------------------------------------------------------ *)
@@ -670,7 +699,7 @@ Qed.
 Lemma header_nodes_ok lo hi r tags quals d c st en op :
   nodes_ok lo hi (ref_nodes r) -> nodes_ok lo hi (flat_map tag_nodes tags) ->
   nodes_ok lo hi (flat_map tag_nodes quals) ->
-  nodes_ok lo hi (match d with Some d => [(12%N, dsstart d, dsend d)] | None => [] end) ->
+  nodes_ok lo hi (match d with Some d => desc_nodes 12 d | None => [] end) ->
   nodes_ok lo hi (comment_nodes c) -> range_ok lo hi st en ->
   nodes_ok lo hi (header_nodes (mkHeader r tags quals d op st en c)).
 Proof.
@@ -742,7 +771,7 @@ Proof.
     eapply pos_le_trans; [exact Hhw2|exact Hhw3]. }
   (* assembling a header whose last state is sN *)
   assert (Hhdr : forall sN d c en op, wstep s sN -> pos_le (hw s3) (hw sN) ->
-            nodes_ok (hw s) (hw sN) (match d with Some d => [(12%N, dsstart d, dsend d)] | None => [] end) ->
+            nodes_ok (hw s) (hw sN) (match d with Some d => desc_nodes 12 d | None => [] end) ->
             nodes_ok (hw s) (hw sN) (comment_nodes c) ->
             valid_pos inp en -> pos_le (hw s3) en -> pos_le en (hw sN) ->
             nodes_ok (hw s) (hw sN) (frag_nodes (FHeader (mkHeader r tags quals d op (ref_start r) en c)))).
@@ -779,7 +808,9 @@ Proof.
     rewrite E4. cbn [wbind]. cbn. split; [exact H04|]. split; [|intros _; pose proof (ws_len _ _ H34); lia].
     apply (Hhdr s4 (Some (mkDescr [t4] (lit t4) (tstart t4) (tend t4))) None (hw s4) false H04 (ws_hw _ _ H34));
       [|constructor|apply H34|apply H34|apply pos_le_refl].
-    constructor; [|constructor]. cbn. eapply range_weaken; [apply H03|apply pos_le_refl|exact Hin4].
+    unfold desc_nodes. cbn [dsstart dsend dtoks map].
+    assert (Hr4 : range_ok (hw s) (hw s4) (tstart t4) (tend t4)) by (eapply range_weaken; [apply H03|apply pos_le_refl|exact Hin4]).
+    constructor; [exact Hr4|]. constructor; [exact Hr4|constructor].
   - (* LBRACE *)
     rewrite E4. cbn [wbind].
     pose proof (end_statement_spec s4 (ws_ok _ _ H34) (wstep_live _ _ H34)) as He.
@@ -819,9 +850,8 @@ Proof.
   - (* COMMENT *) rewrite E. cbn. split; [exact Hst|]. split; [|exact Hlen]. constructor; [exact Hin|constructor].
   - (* BLOCK_COMMENT *) rewrite E. cbn. split; [exact Hst|]. split; [|exact Hlen]. constructor; [exact Hin|constructor].
   - (* DESCRIPTION *)
-    pose proof (pop_description_spec s Hok Hl) as H.
-    destruct (pop_description s) as [d s'|t' wetq s'|p|]; cbn in *; auto.
-    destruct H as (A & B & C). split; [exact A|]. split; [|exact C]. constructor; [exact B|constructor].
+    pose proof (pop_description_spec s 3 Hok Hl) as H.
+    destruct (pop_description s) as [d s'|t' wetq s'|p|]; cbn [wbind wres_ok ofrag_nodes frag_nodes] in *; auto.
   - (* RBRACE *) rewrite E. cbn. split; [exact Hst|]. split; [|exact Hlen]. constructor; [exact Hin|constructor].
 Qed.
 
